@@ -409,6 +409,25 @@ def handleOps (op : String) (args : List String) (impl : Impl) : Option Ans :=
       | .other w => "FAIL:" ++ w
       | _ => "FAIL:decode"
     pure { model := m, spec := sp, branch := "lsfile_lookup" }
+  | "lsiter", [which, k, method, j] => do
+    -- "LatestLeapSeconds iteration" (spec only): reading the table through the Iterator protocol after k forward steps
+    -- gives what the full forward listing (second observable; its content is judged by leap_table) says
+    let k ← k.toNat?; let j ← j.toNat?
+    let sp := match impl with
+      | .ok [got, full] =>
+        let fl := full.splitOn ","
+        let rest := fl.drop k
+        let want : List String := match method with
+          | "last" | "max" => rest.getLast?.toList
+          | "min" => rest.head?.toList
+          | "count" => [toString rest.length]
+          | "nth" => (rest.drop j).head?.toList
+          | "rest" => rest
+          | _ => fl.reverse
+        verdict [("reads_the_listed_table", got == (if want.isEmpty then "-" else ",".intercalate want))]
+      | .other w => "FAIL:" ++ w
+      | _ => "FAIL:decode"
+    pure { model := "-", spec := sp, branch := "lsiter:" ++ which ++ ":" ++ method }
   | "leap_table", [which] => do
     let tbl : List LeapEntry := if which == "file" then Gen.LEAP_FILE else builtin
     -- the generated table IS what the provider yields (tie of Gen to the code); the theorems of
